@@ -8,11 +8,13 @@ import Driver.HwmonStream
 import Driver.ExecStream
 import Driver.ConfigStream
 import Driver.StartupStream
+import Driver.LifecycleStream
 import Fan2go.Model.ControlLoop
 import Fan2go.Model.Curves
 import Fan2go.Model.Fan
 import Fan2go.Model.Controller
 import Fan2go.Model.Sensor
+import Fan2go.Model.Wiring
 open Fan2go Driver
 
 structure St where
@@ -27,6 +29,7 @@ structure St where
   ex : ExecDrvSt := {}
   cfgSt : ConfigDrvSt := {}
   su : StartupDrvSt := {}
+  lc : LifecycleDrvSt := {}
   snKind : SensorKind := .file
   snAvg : F64 := F64.zero
   snWin : Int := 10
@@ -310,6 +313,34 @@ def opSensor (st : St) (op : String) (a : KV) : St × String :=
     ({ st with snAvg := avg' }, rs ++ " avg=" ++ fmtF avg')
   | _ => (st, "bad-op")
 
+
+/-! ### wiring stream -/
+
+def parseGains (parts : List String) : F64 × F64 × F64 :=
+  (parseF (parts.getD 1 "x0"), parseF (parts.getD 2 "x0"), parseF (parts.getD 3 "x0"))
+
+def opWire (a : KV) : String :=
+  let parts := (a.str "ca" "none").splitOn ":"
+  let (legacy, ca) : Option (F64 × F64 × F64) × Option CtrlAlgCfg :=
+    match parts.headD "none" with
+    | "direct" => (none, some { direct := some none })
+    | "directm" => (none, some { direct := some ((parts.getD 1 "").toInt?) })
+    | "pid" => (none, some { pid := some (parseGains parts) })
+    | "legacy" => (some (parseGains parts), none)
+    | "both" => (some (parseGains parts), some { direct := some none })
+    | _ => (none, none)
+  match controlLoopOf legacy ca with
+  | none => "ok out=nil-loop"
+  | some l0 =>
+    let steps := ((a.str "seq" "").splitOn ";").filter (· ≠ "")
+    let (_, outs) := steps.foldl (fun (acc : LoopSt × List String) st =>
+      match st.splitOn ":" with
+      | [t, c, now] =>
+        let (l', r) := acc.1.cycle indef (t.toInt?.getD 0) (c.toInt?.getD 0) (now.toInt?.getD 0)
+        (l', acc.2 ++ [toString r])
+      | _ => acc) (l0, [])
+    "ok out=" ++ ",".intercalate outs
+
 def step (st : St) (line : String) : St × String :=
   let toks := (line.splitOn " ").filter (· ≠ "")
   match toks with
@@ -345,6 +376,8 @@ def step (st : St) (line : String) : St × String :=
     | "fan" => opFan st op a
     | "w" => opWorld st op a
     | "sn" => opSensor st op a
+    | "wire" => (st, if op == "wire.loop" then opWire a else "bad-op")
+    | "lc" => let (s, o) := lifecycleStep st.lc op a; ({ st with lc := s }, o)
     | "su" => let (s, o) := startupStep st.su op a; ({ st with su := s }, o)
     | "cfg" => let (c, o) := configStep st.cfgSt op a; ({ st with cfgSt := c }, o)
     | "ex" => let (e, o) := execStep st.ex op a; ({ st with ex := e }, o)
